@@ -132,6 +132,8 @@ class Labware:
             raise ValueError(f"Invalid min_volume: {min_volume}")
         if max_volume is None or max_volume <= min_volume:
             raise ValueError(f"Invalid max_volume: {max_volume}")
+        if rows > 26 or (virtual_rows is not None and virtual_rows > 26):
+            raise ValueError("Labware with more than 26 (virtual) rows is not supported.")
         if virtual_rows is not None and rows != 1:
             raise ValueError("When using virtual_rows, the number of rows must be == 1")
         if virtual_rows is not None and virtual_rows < 1:
